@@ -22,6 +22,9 @@ TRUSTED_BASE = [
 ]
 
 
+SHARED = {}
+
+
 def check_frame(out, rng, fr, sess, pending):
   from matched_markets.methodology import tbr_iroas
   level, tails, metric = fr['level'], fr['tails'], fr['metric']
@@ -34,10 +37,18 @@ def check_frame(out, rng, fr, sess, pending):
   nonmono = bool(ks is not None and any(ks[i + 1] < ks[i] for i in range(len(ks) - 1)))
   facts = {'call': 'estimate_pointwise_and_cumulative_effect', 'metric': metric, 'tails': tails, 'level': level,
            'tail_probability': tail_p, 'scale_nonmonotone': nonmono, 'cost_kind': fr['cost_kind']}
-  m = tbr_iroas.TBRiROAS(use_cooldown=True)
+  m = SHARED.get('m') if fr.get('reuse_object') else None
+  if m is None:
+    m = tbr_iroas.TBRiROAS(use_cooldown=True)
+  if fr.get('reuse_object'):
+    SHARED['m'] = m      # one analysis object fitted again and again: every fit must start from scratch
   try:
     m.fit(en.to_df(fr))
-    fixed = m._is_fixed_cost_scenario()
+    # which cost scenario this frame is, determined from the frame itself (not asked from the object under test)
+    t_cost = en.totals(fr, col=5)
+    strict = sum(t_cost[0][0]) + sum(t_cost[0][1]) + sum(t_cost[1][0])
+    broad = strict + sum(r[5] for r in fr['rows'] if r[2] not in (1, 2) and r[3] == 0)
+    fixed = (strict == 0) if (strict == 0) == (broad == 0) else m._is_fixed_cost_scenario()
     ts = m.estimate_pointwise_and_cumulative_effect(metric=metric, level=level, tails=tails)
   except Exception as e:
     out.oracle_violation(dict(facts, symptom='exception', exception=type(e).__name__), case,
@@ -103,8 +114,10 @@ def run(out, tier, model_ok=True):
   pending = []
   for i in range(n):
     fr = en.gen_frame(rng, cooldown=rng.choice([1, 2, 4, 0]), cost_kind=('variable' if i % 3 == 0 else 'fixed'), spike=(i % 10 == 3))
+    if i % 10 == 4:
+      SHARED.clear()      # a new re-used object now and then, so that both cost scenarios come first on some object
     fr.update(level=rng.choice([0.9, 0.8, 0.95, 0.5, 0.3]), tails=rng.choice([1, 2]),
-              metric=rng.choice(['tbr_response', 'tbr_response', 'tbr_cost']))
+              metric=rng.choice(['tbr_response', 'tbr_cost', 'tbr_cost']), reuse_object=(i % 2 == 0))
     check_frame(out, rng, fr, sess, pending)
   if sess is not None and pending:
     res = sess.run()
@@ -116,7 +129,7 @@ def run(out, tier, model_ok=True):
           out.mismatch('numeric-bands', case, f'{nm}: implementation {list(w[:4])} model {g[:4]}')
           break
   out.rule = ('generated experiment frames with 0-4 cooldown days (every 10th with a control spike followed by a reversal on the first test '
-              'days), fixed and variable cost, metric response/cost, tails 1/2, levels {0.9,0.8,0.95,0.5,0.3}; per frame: the report must '
+              'days), fixed and variable cost, metric response/cost, every other frame fitted on one re-used TBRiROAS object, tails 1/2, levels {0.9,0.8,0.95,0.5,0.3}; per frame: the report must '
               'succeed, the three series must be ordered, counterfactual + difference = observed, pre-period differences = residuals, '
               'last-date cumulative = posterior location and quantiles; experiment-date bands against the Lean model; '
               'non-trivial = well-conditioned frame; distinct by (metric, n_pre, n_test, n_cool, tails, level)')
